@@ -1,4 +1,5 @@
 import Walrus.Proofs.Sem
+import Walrus.Proofs.Rename
 
 /-!
 # C01 — parse → emit preserves execution behaviour
@@ -13,14 +14,22 @@ What walrus does to a body is `rename ∘ elide`: it drops `nop`s and everything
 unconditional transfer in the same sequence (`SL.elide`), and renumbers entity operands.
 
 * **Proved, for every module, every state, every call sequence, every gas budget**: `elide` is
-  unobservable (`elision_unobservable`, `elision_unobservable_calls`).
+  unobservable (`elision_unobservable`, `elision_unobservable_calls`); **renumbering** of functions
+  (any permutation of the index space), of types (de-duplication, sorting), of the locals of each
+  function (compaction: locals a body never names may disappear) and the rewriting of block types
+  to another form of the same arity are unobservable at the level of calls
+  (`renumbering_unobservable_calls`): the interpreter names functions and locals by *uid*, the
+  renumbering changes the index ↦ uid tables and the operands in the bodies, and every call
+  returns, traps, traces and leaves the store exactly as before.
 * **Tie to the code, checked on every case**: the driver request `elidetie` compares the bodies of
   walrus's real output with `SL.elide` of the real input's bodies (modulo operand renumbering and
   the normal form of block types); the whole-module model predicts the output exactly.
-* **Renumbering** (function order, type de-duplication and sorting, local compaction): the maps are
-  the subject of the C19/C03/C04 theorems; that applying them is unobservable is decided here by
-  running input and output side by side in the interpreter (oracle, sampling), not by a theorem.
-  Hence `…_partial`.
+* Not theorems (hence `…_partial`): that the observation glue around calls (instantiation, the
+  export script) commutes with the renumbering of the export/start/element operands, and that the
+  observation of a module does not depend on how uids are assigned.  Both are checked on every case:
+  the driver request `rentie` evaluates the hypotheses of the renumbering theorem (`EnvRen`) on the
+  real input/output pair with the maps the model computes, runs the output under both uid
+  assignments, and the side-by-side execution oracle compares input and output end to end.
 -/
 namespace Walrus
 namespace C01
@@ -28,21 +37,36 @@ open Walrus.Sem
 
 /-- calls into the module whose bodies were elided return, trap, trace and leave the store exactly
     as calls into the original module -/
-theorem elision_unobservable_calls (E : Env) (gas : Nat) (f : Nat) (args : List V) (st : Store) :
-    invoke E.elide gas f args st = invoke E gas f args st := by
+theorem elision_unobservable_calls (E : Env) (gas : Nat) (u : Nat) (args : List V) (st : Store) :
+    invoke E.elide gas u args st = invoke E gas u args st := by
   rw [invoke_elide]
 
 /-- the observation of any script — instantiation (segments, start function), every call with
     carried-over state, host trace, exported state — is unchanged by elision -/
 theorem elision_unobservable (m : ModuleM) (E : Env) (gas seed rounds : Nat) :
-    observeWith m E.elide.fsigs (invoke E.elide gas) seed rounds =
-    observeWith m E.fsigs (invoke E gas) seed rounds :=
+    observeWith m E.elide.ftab E.elide.usigs (invoke E.elide gas) seed rounds =
+    observeWith m E.ftab E.usigs (invoke E gas) seed rounds :=
   observe_elide m E gas seed rounds
 
-/-- body-level form, for any meaning of calls and loop re-entry that agrees on the two sides -/
-theorem round_trip_preserves_behaviour_partial (T FS : List Sig) (R' R : Rec) (h : RecRel R' R)
-    (body : SL) (s : St) : execL T FS R' body.elide s = execL T FS R body s :=
-  elide_execL T FS R' R h body s
+/-- **renumbering is unobservable**: if `E'` is `E` with its function indices, type indices, local
+    indices and block types renumbered (`EnvRen`: the index ↦ uid tables agree through the
+    renumbering, every function keeps uid, signature, import names and parameters, its body is the
+    renumbered body, and every local a body names keeps its uid and type), then every call, with
+    any arguments, in any store, with any gas, has the same outcome -/
+theorem renumbering_unobservable_calls {fρ yρ : Nat → Nat} {btρ : BT → BT} {xρ : Nat → Nat → Nat}
+    {E' E : Env} (h : EnvRen fρ yρ btρ xρ E' E) (gas : Nat) (u : Nat) (args : List V) (st : Store) :
+    invoke E' gas u args st = invoke E gas u args st := by
+  rw [invoke_ren h]
+
+/-- body-level forms, for any meaning of calls and loop re-entry that agrees on the two sides -/
+theorem round_trip_preserves_behaviour_partial (C : Ctx) (R' R : Rec) (h : RecRel R' R)
+    (body : SL) (s : St) : execL C R' body.elide s = execL C R body s :=
+  elide_execL C R' R h body s
+
+theorem renumbered_body_behaves_the_same (ρ : Ren) (C' C : Ctx) (hc : CtxRen ρ C' C) (R' R : Rec)
+    (hr : RecRen ρ C' C R' R) (body : SL) (s : St) (hl : body.All (localOK C' C ρ)) :
+    execL C' R' (body.ren ρ) s = execL C R body s :=
+  ren_execL ρ C' C hc R' R hr body s hl
 
 -- non-vacuity: elision does remove instructions, including a nested block after a branch
 def sampleBody : SL := SL.ofList
@@ -50,6 +74,38 @@ def sampleBody : SL := SL.ofList
    .block .empty (SL.ofList [.op ⟨"Unreachable", []⟩]), .op ⟨"Drop", []⟩]
 example : sampleBody.size = 6 ∧ sampleBody.elide.size = 2 := by decide
 example : sampleBody.elide.flat = [⟨"I32Const", [.num 1]⟩, ⟨"Br", [.ref "l" 0]⟩] := by decide
+
+-- non-vacuity of the renumbering hypotheses: two functions swapped, the second local of function 1
+-- moved to slot 1 after an unused local was dropped
+def envA : Env :=
+  ⟨[([], [])], [0, 1],
+   [⟨([], []), none, [], SL.ofList [.op ⟨"Call", [.ref "f" 1]⟩]⟩,
+    ⟨([], []), none, [(0, "i32"), (1, "i32")], SL.ofList [.op ⟨"LocalGet", [.ref "x" 1]⟩, .op ⟨"Drop", []⟩]⟩]⟩
+def envB : Env :=
+  ⟨[([], [])], [1, 0],
+   [⟨([], []), none, [], SL.ofList [.op ⟨"Call", [.ref "f" 0]⟩]⟩,
+    ⟨([], []), none, [(1, "i32")], SL.ofList [.op ⟨"LocalGet", [.ref "x" 0]⟩, .op ⟨"Drop", []⟩]⟩]⟩
+def swap01 (n : Nat) : Nat := if n = 0 then 1 else if n = 1 then 0 else n
+
+example : EnvRen swap01 id id (fun _ x => x - 1) envB envA := by
+  refine ⟨?_, ?_, ?_, rfl, ?_⟩
+  · intro f
+    match f with
+    | 0 => rfl
+    | 1 => rfl
+    | n+2 => simp [swap01, envA, envB]
+  · intro y; rfl
+  · intro b; rfl
+  · intro u fi hu
+    match u with
+    | 0 =>
+      simp [envA] at hu; subst hu
+      exact ⟨_, rfl, rfl, rfl, rfl, by simp [SL.ofList, SL.ren, SI.ren, Ren.op, swap01], by simp [SL.ofList, SL.All, SI.All, localOK, isLocalOp]⟩
+    | 1 =>
+      simp [envA] at hu; subst hu
+      refine ⟨_, rfl, rfl, rfl, rfl, by simp [SL.ofList, SL.ren, SI.ren, Ren.op, isLocalOp], ?_⟩
+      simp [SL.ofList, SL.All, SI.All, localOK, isLocalOp, Env.ctx, envB]
+    | n+2 => simp [envA] at hu
 
 end C01
 end Walrus
